@@ -107,6 +107,15 @@ func genOp(p Profile, ntables int) *rapid.Generator[Op] {
 				o.Us = rapid.SliceOfN(genKeyN(1), 0, 2).Draw(t, "us")
 				o.Tags = rapid.SliceOfN(genKeyN(2), 0, 3).Draw(t, "tags")
 				o.Pfx = rapid.SliceOfN(genP(), 0, 2).Draw(t, "pfx")
+				if rapid.IntRange(0, 7).Draw(t, "dupKeys") == 0 {
+					// an indexer that yields the same key twice
+					if len(o.Tags) > 0 {
+						o.Tags = append(o.Tags, o.Tags[0])
+					}
+					if len(o.Pfx) > 0 {
+						o.Pfx = append(o.Pfx, o.Pfx[0])
+					}
+				}
 				o.Val = rapid.IntRange(0, 9).Draw(t, "val")
 			}
 			o.G = rapid.IntRange(0, 15).Draw(t, "g")
